@@ -140,6 +140,7 @@ CHECKS["C15"] = {
         {"engine": "E", "proxy": ["plain"], "tests": [
             {"run": "TestVfC15Listeners", "quick": 96, "thorough": 12860, "shards_quick": 8, "shards_thorough": 16, "timeout_thorough": 3400},
             {"run": "TestVfC15SlowStore", "quick": 4, "thorough": 160, "shards_quick": 4, "shards_thorough": 8, "timeout_thorough": 3400, "shrinktime": "40s"},
+            {"run": "TestVfC15PrefetchCharges", "quick": 4, "thorough": 240, "shards_quick": 4, "shards_thorough": 8, "timeout_thorough": 3400, "shrinktime": "40s"},
             # a refused UDP query "is answered REFUSED": on a wildcard listener that answer has to leave from the address that was asked
             {"run": "TestVfC03WildcardUDP", "quick": 120, "thorough": 6000, "shards_quick": 8, "shards_thorough": 16, "timeout_thorough": 3000},
         ]},
@@ -170,6 +171,7 @@ CHECKS["C07"] = {
         ]},
         {"engine": "E", "proxy": ["plain"], "tests": [
             {"run": "TestVfC07Cache", "quick": 400, "thorough": 128570, "shards_quick": 8, "shards_thorough": 16, "timeout_thorough": 3400},
+            {"run": "TestVfC07PrefetchGroup", "quick": 4, "thorough": 160, "shards_quick": 4, "shards_thorough": 8, "timeout_thorough": 3400, "shrinktime": "40s"},
         ]},
     ],
     "assumptions": [
